@@ -345,6 +345,9 @@ func genBlock(g *vlib.Rng, sc *scenario, now int64, cons *consH, force string) *
 	}
 	s.txs = []*rtx{cb}
 	ntx := g.Intn(7)
+	if g.Chance(1, 40) {
+		ntx = 244 + g.Intn(16) // around 253 transactions the count prefix grows from 1 to 3 bytes (every rule, every entry path)
+	}
 	anyWit := false
 	for i := 0; i < ntx; i++ {
 		w := segwitOn && g.Chance(1, 2)
@@ -711,8 +714,10 @@ func runBlock(kind string, sc *scenario, s *blockSpec, cons consH, raw []byte, n
 		var er error
 		bl, er = btc.NewBlock(raw)
 		if er != nil {
-			// e.g. corrupt txn_count: refused before CheckBlock; nothing to compare
+			// e.g. corrupt txn_count: refused before CheckBlock; nothing to compare for an object made of the whole
+			// serialisation — but an object made of the header never sees UpdateContent's test
 			r.Hit("block-newblock-error")
+			entryPaths(kind, sc, s, raw, now, rep, &p0res{newBlockErr: true}, nil)
 			return
 		}
 	}
@@ -775,6 +780,11 @@ func runBlock(kind string, sc *scenario, s *blockSpec, cons consH, raw []byte, n
 	unspentBefore := ch.Unspent
 	rawCopy := append([]byte{}, raw...)
 	preParsedIn := s.preParsed && bl.Txs != nil
+	cntEntry := bl.TxCount // what NewBlock / UpdateContent left (the count field of the whole serialisation)
+	rawCnt := 0
+	if b2, e2 := btc.NewBlock(raw); e2 == nil && len(raw) >= 80 {
+		rawCnt = b2.TxCount
+	}
 
 	var dos, later bool
 	var er error
@@ -822,8 +832,8 @@ func runBlock(kind string, sc *scenario, s *blockSpec, cons consH, raw []byte, n
 		model = fmt.Sprintf("%s dos=%s later=%s", pf[2], pf[0], pf[1])
 		if pf[2] == "ok" && !(s.shortRaw > 0 || len(raw) < 80) {
 			buildOk, toks := modelTxTokens(raw)
-			post := o.MustAsk(fmt.Sprintf("post %d %s %s %s %s %s %d %s %d %d %d %d %d %d %s", len(raw), b2s(s.preParsed && bl.Txs != nil), b2s(buildOk), b2s(s.trusted),
-				pf[3], pf[4], btime, vlib.Hex(raw[36:68]), cons.bip34, cons.bip65, cons.bip66, cons.csv, cons.segwit, cons.taproot, strings.Join(toks, " ")))
+			post := o.MustAsk(fmt.Sprintf("post %d %s %s %s %s %s %d %s %d %d %d %d %d %d %d %s", len(raw), b2s(s.preParsed && bl.Txs != nil), b2s(buildOk), b2s(s.trusted),
+				pf[3], pf[4], btime, vlib.Hex(raw[36:68]), cons.bip34, cons.bip65, cons.bip66, cons.csv, cons.segwit, cons.taproot, cntEntry, strings.Join(toks, " ")))
 			qf := strings.Fields(post)
 			if len(qf) == 2 {
 				pc := qf[0]
@@ -870,17 +880,18 @@ func runBlock(kind string, sc *scenario, s *blockSpec, cons consH, raw []byte, n
 	if !(s.shortRaw > 0 || len(raw) < 80) {
 		buildOk, toks := modelTxTokens(raw)
 		assigned := buildAssigned(raw) // BuildTxList returns before bl.Txs = make(...) on a corrupt count
-		cb := o.MustAsk(fmt.Sprintf("cb %d %d %s %s %d %d %d %s %s %d %s %d %d %d %d %d %d %s %s %s %s %s %s", len(raw), ver, hashHex, prevHex,
+		cb := o.MustAsk(fmt.Sprintf("cb %d %d %s %s %d %d %d %s %s %d %s %d %d %d %d %d %d %s %s %s %s %s %d %d %s", len(raw), ver, hashHex, prevHex,
 			bits, btime, now, b2s(sc.net.testnet), b2s(sc.net.testnet4), ch.Consensus.MaxPOWBits, ch.Consensus.MaxPOWValue.String(),
-			cons.bip34, cons.bip65, cons.bip66, cons.csv, cons.segwit, cons.taproot, b2s(preParsedIn), b2s(buildOk), b2s(assigned), b2s(s.trusted), vlib.Hex(raw[36:68]), strings.Join(toks, " ")))
+			cons.bip34, cons.bip65, cons.bip66, cons.csv, cons.segwit, cons.taproot, b2s(preParsedIn), b2s(buildOk), b2s(assigned), b2s(s.trusted), vlib.Hex(raw[36:68]),
+			cntEntry, rawCnt, strings.Join(toks, " ")))
 		cf := strings.Fields(cb)
 		ntx := "nil"
 		if bl.Txs != nil {
 			ntx = fmt.Sprint(len(bl.Txs))
 		}
-		implM := fmt.Sprintf("%s %s %s %d %d %d %s %d %d", b2s(dos), b2s(later), code, bl.Height, bl.MedianPastTime, bl.VerifyFlags, ntx, len(ch.BlockIndex), sc.t.idx[ch.LastBlock()])
+		implM := fmt.Sprintf("%s %s %s %d %d %d %s %d %d %d", b2s(dos), b2s(later), code, bl.Height, bl.MedianPastTime, bl.VerifyFlags, ntx, len(ch.BlockIndex), sc.t.idx[ch.LastBlock()], bl.TxCount)
 		modelM := cb
-		if len(cf) == 10 {
+		if len(cf) == 11 {
 			mc := cf[2]
 			if strings.HasPrefix(mc, "tx:") && strings.HasPrefix(code, "tx:") {
 				for _, e := range strings.Split(mc[3:], "|") {
@@ -889,11 +900,11 @@ func runBlock(kind string, sc *scenario, s *blockSpec, cons consH, raw []byte, n
 					}
 				}
 			}
-			modelM = strings.Join([]string{cf[0], cf[1], mc, cf[3], cf[4], cf[5], cf[6], cf[8], cf[9]}, " ")
+			modelM = strings.Join([]string{cf[0], cf[1], mc, cf[3], cf[4], cf[5], cf[6], cf[8], cf[9], cf[10]}, " ")
 		}
 		rep["model_with_effects"] = modelM
 		if implM != modelM {
-			r.TieFail("tie-checkblock-effects:"+s.mut, fmt.Sprintf("model checkBlockM / impl differ on CheckBlock's result or effects (kind %s): impl=%q model=%q (dos later code Height MedianPastTime VerifyFlags len(Txs) len(BlockIndex) last)", s.mut, implM, modelM), rep)
+			r.TieFail("tie-checkblock-effects:"+s.mut, fmt.Sprintf("model checkBlockM / impl differ on CheckBlock's result or effects (kind %s): impl=%q model=%q (dos later code Height MedianPastTime VerifyFlags len(Txs) len(BlockIndex) last TxCount)", s.mut, implM, modelM), rep)
 			return
 		}
 		r.TieOK()
@@ -953,6 +964,18 @@ func runBlock(kind string, sc *scenario, s *blockSpec, cons consH, raw []byte, n
 		return
 	}
 	r.TieOK()
+	// ---- the same bytes through the other ways a Block object reaches PostCheckBlock (entrypaths.go)
+	if !(s.shortRaw > 0 || len(raw) < 80) && !s.preParsed && dupNode == nil {
+		viol, _ := rep["reference_violations"].([]string)
+		p0 := &p0res{dos: dos, later: later, code: code, accepted: accepted, weight: bl.BlockWeight, ntx: len(bl.Txs), txsNil: bl.Txs == nil,
+			height: bl.Height, mtp: bl.MedianPastTime, flags: bl.VerifyFlags, viol: viol, judged: rep["reference_violations"] != nil}
+		askPost := func(cnt int) string {
+			buildOk, toks := modelTxTokens(raw)
+			return o.MustAsk(fmt.Sprintf("post %d 0 %s %s %d %d %d %s %d %d %d %d %d %d %d %s", len(raw), b2s(buildOk), b2s(s.trusted),
+				bl.Height, bl.MedianPastTime, btime, vlib.Hex(raw[36:68]), cons.bip34, cons.bip65, cons.bip66, cons.csv, cons.segwit, cons.taproot, cnt, strings.Join(toks, " ")))
+		}
+		entryPaths(kind, sc, s, raw, now, rep, p0, askPost)
+	}
 }
 
 func stableNow() int64 { return time.Now().Unix() }
